@@ -157,12 +157,17 @@ func (b *Batcher[K, T]) Batch(key K, value T) {
 // subscribers. The batcher will be a no-op after this call.
 func (b *Batcher[K, T]) Close() {
 	defer b.wg.Wait()
-	b.queue.Close()
-	b.lock.Lock()
+	// Close the channel first: a delivery that is blocked on a stalled
+	// subscriber holds the lock, keeps the queue processor busy and is only
+	// released by closeCh.
 	if b.closed.CompareAndSwap(false, true) {
 		close(b.closeCh)
 	}
-	b.lock.Unlock()
+	b.queue.Close()
+	// Wait for any Subscribe in progress, so that no forwarder is added to the
+	// wait group after we start waiting on it.
+	b.lock.Lock()
+	b.lock.Unlock() //nolint:staticcheck
 }
 
 // item implements queue.queueable.
